@@ -102,9 +102,10 @@ def preemption_schedules(total, maxp, first_threads=(0, 1)):
 
 class C10(ConcProp):
     pid = "C10"
-    imports = "Require Import PV.Model.VecConc PV.Spec.SpecC10."
+    imports = "Require Import PV.Model.VecConc PV.Spec.SpecC10 PV.Proofs.VecConcSpec."
     case_type = "nat * nat * list event"
-    chk_def = "Definition chk (c : nat * nat * list event) : bool := vcheck (fst (fst c)) (snd (fst c)) (snd c)."
+    chk_def = ("Definition chk (c : nat * nat * list event) : bool := "
+               "vcheck (fst (fst c)) (snd (fst c)) (snd c) && in_domain (snd (fst c)) (snd c).   (* in_domain: the domain of c10_relaxed_spec_of_validated_partial *)")
     spec_def = "Definition chk_spec (c : nat * nat * list event) : bool := spec_c10_strict (fst (fst c)) (snd c)."
     known_id = "C10-collect-values-not-snapshot"
     rule = ("one IntCounterVec (1-2 labels), 2-3 threads, 1-4 calls each over 2-3 overlapping label-value tuples, distinct power-of-two "
